@@ -1613,15 +1613,19 @@ def run_C12(ck):
                 if c['rt']['r'].get('verdict') != 'ok' or c['rt']['r'].get('out') != src_data:
                     return 'encoder output through a %s sink does not decode back to the input' % ('short-writing' if c['wr'] != 'all' else 'normal')
             return None
-        if not judge(ck, p, ['verdict', 'out', 'pos'], oracle0, 'both', io_pattern=True): continue
+        judge(ck, p, ['verdict', 'out', 'pos'], oracle0, 'both', io_pattern=True)
+        # a fault-free run that merely differs from the model (reported above) is still a usable base for fault injection, as long
+        # as it is correct in itself: the fault positions are enumerated from the implementation's own call counts
+        if oracle0(p) is not None: continue
         good = unhx(p['r']['out'])
         rc, wc = int(p['r'].get('rc', 0)), int(p['r'].get('wc', 0))
         ks_r = range(rc + 1) if rc <= 60 else sorted(set([0, 1, 2, rc - 1, rc] + [rng.below(rc) for _ in range(40)]))
         ks_w = range(wc + 1) if wc <= 60 else sorted(set([0, 1, 2, wc - 1, wc] + [rng.below(wc) for _ in range(40)]))
+        EK = ['other', 'eof', 'wouldblock', 'invalid', 'pipe']      # the kind of the injected error must not matter
         for k in ks_r:
-            cases.append({'line': '%s rd=%s wr=%s rfail=%d' % (p['base'], p['rd'], p['wr'], k), 'meta': {'op': p['op'], 'fault': 'read', 'k': k, 'of': rc}, 'inside': k < rc, 'good': good, 'op': p['op']})
+            cases.append({'line': '%s rd=%s wr=%s rfail=%d ekind=%s' % (p['base'], p['rd'], p['wr'], k, EK[(k + len(p['base'])) % 5]), 'meta': {'op': p['op'], 'fault': 'read', 'k': k, 'of': rc}, 'inside': k < rc, 'good': good, 'op': p['op']})
         for k in ks_w:
-            cases.append({'line': '%s rd=%s wr=%s wfail=%d' % (p['base'], p['rd'], p['wr'], k), 'meta': {'op': p['op'], 'fault': 'write', 'k': k, 'of': wc}, 'inside': k < wc, 'good': good, 'op': p['op']})
+            cases.append({'line': '%s rd=%s wr=%s wfail=%d ekind=%s' % (p['base'], p['rd'], p['wr'], k, EK[(k + 2 + len(p['base'])) % 5]), 'meta': {'op': p['op'], 'fault': 'write', 'k': k, 'of': wc}, 'inside': k < wc, 'good': good, 'op': p['op']})
         if p['op'] in ('lzma_dec', 'lzma2_dec'):
             cases.append({'line': '%s rd=%s wr=%s ffail=1' % (p['base'], p['rd'], p['wr']), 'meta': {'op': p['op'], 'fault': 'flush'}, 'inside': True, 'good': good, 'op': p['op']})
         ck.count('op_' + p['op'])
